@@ -18,6 +18,13 @@ for dp, dn, fs in os.walk(os.path.join(root, 'pox')):
     except SyntaxError: continue
     inv[rel] = norm.module_inventory(tree)
     skel[rel] = norm.module_skeletons(tree)
+allp = set()
+for dp, dn, fs in os.walk(os.path.join(root, 'pox')):
+  for f in fs:
+    if f.endswith('.py'):
+      try: allp |= norm.private_names(ast.parse(open(os.path.join(dp, f), encoding='utf-8', errors='replace').read()))
+      except SyntaxError: pass
+skel['<private-names>'] = {'names': sorted(allp)}
 json.dump(inv, open(os.path.join(V, 'spec', 'inventory.json'), 'w'), indent=0, sort_keys=True)
 json.dump(skel, open(os.path.join(V, 'spec', 'skeletons.json'), 'w'), indent=0, sort_keys=True)
 print("modules: %d, functions: %d" % (len(inv), sum(len(v) for v in inv.values())))
